@@ -26,11 +26,16 @@ def py_eq(a, b):
     return False
 
 
-def preferred_null(cls):
+def preferred_null(cls, value=None, given=False):
+    """The preferred spelling of a null value: among the spellings of THAT null value (a class may have several null
+    values), the empty text if it is one of them, else the first."""
     d = cls.__nullable_dict__()
     if not d:
         return None
-    return "" if "" in d else list(d)[0]
+    keys = [k for k, v in d.items() if v == value] if given else list(d)
+    if not keys:
+        return None
+    return "" if "" in keys else keys[0]
 
 
 def eval_field(ann, name, text, cls):
@@ -62,7 +67,7 @@ def eval_field(ann, name, text, cls):
         fails.append(dict(where, what="rendered field contains a tab or line break", kind="separator", rendered=s1))
         return e
     if c1.is_null():
-        pn = preferred_null(cls)
+        pn = preferred_null(cls, c1.value, given=True)
         if s1 != pn:
             fails.append(dict(where, what="null value is not rendered as the preferred null spelling",
                               kind="null-spelling", rendered=s1, expected=pn))
@@ -187,6 +192,55 @@ def eval_kept(ann, line):
     finally:
         undo()
     return {"status": "accepted", "failures": fails, "rendered": s0}
+
+
+def app_classes():
+    """Column classes an application defines on top of the library's abstract ones: an enumerated column over a plain
+    standard-library Enum (not the library's MafEnum), and custom columns with two different null values."""
+    import enum
+    import maflib.column_types as CT
+    from maflib.column import MafCustomColumnRecord
+
+    class Platform(enum.Enum):
+        Illumina = "ILLUMINA"
+        IonTorrent = "ION"
+
+    class PlatformColumn(CT.EnumColumn):
+        @classmethod
+        def __enum_class__(cls):
+            return Platform
+
+    class _Custom(MafCustomColumnRecord):
+        @classmethod
+        def __build__(cls, value):
+            return str(value)
+
+        def __validate__(self):
+            return None
+
+    class EmptyOrNA(_Custom):
+        @classmethod
+        def __nullable_dict__(cls):
+            return {"": None, "NA": ()}
+
+    class NAOrND(_Custom):
+        @classmethod
+        def __nullable_dict__(cls):
+            return {"NA": (), "ND": None, "n/d": None}
+    return [(PlatformColumn, ["ILLUMINA", "ION", "Illumina", "IonTorrent", "illumina", ""]), (EmptyOrNA, ["", "NA", "x", "na"]), (NAOrND, ["NA", "ND", "n/d", "x", ""])]
+
+
+def app_class_cases(ctx, out):
+    for cls, texts in app_classes():
+        for t in texts:
+            out.evaluations += 1
+            e = eval_field("application-defined column class %s" % cls.__name__, "col", t, cls)
+            for f in e["failures"]:
+                f["app_class"] = cls.__name__
+            out.failures += e["failures"]
+            out.distribution["application-defined column class: " + e["status"]] += 1
+            if e["status"] == "accepted":
+                out.nontrivial.add(("app-class", cls.__name__, t))
 
 
 def kept_record_cases(ctx, out):
@@ -452,6 +506,7 @@ def run(ctx):
     custom_mixins(ctx, out)
     float_laws(ctx, out)
     kept_record_cases(ctx, out)
+    app_class_cases(ctx, out)
     return out
 
 
@@ -536,6 +591,14 @@ def replay_case(ctx, failure):
         return e["failures"]
     if not all(k in f for k in ("scheme", "column", "text")):
         return None
+    if f.get("app_class"):
+        cls = dict((c.__name__, c) for c, _t in app_classes()).get(f["app_class"])
+        if cls is None:
+            return None
+        e = eval_field(f["scheme"], f["column"], f["text"], cls)
+        print("replay C04: %s.build('col', %r) rendered, parsed and rendered again (%s: %s)" % (f["app_class"], f["text"], f["app_class"], (cls.__doc__ or "an application-defined column class").strip()))
+        print("  oracle: %d failure(s)%s" % (len(e["failures"]), "".join("\n    - " + x["what"] for x in e["failures"])))
+        return e["failures"]
     ann, name, text = f["scheme"], f["column"], f["text"]
     if ann.startswith("m-1.0.0"):
         # a synthesised mixin type: base / derived / base in one process, after the texts exercised before it
